@@ -136,7 +136,12 @@ def finished_child_family(rng, n):
         if not fin and rng.random() < 0.5:
             steps.append(("do", 1, 4, [("finish",)]))
             steps.append(("adv", 120))
-        steps.append(("stop", rng.choice([0, 0, 0, 1])))
+        if rng.random() < 0.4:
+            # the parent stops the (finished) child with the stopChild action instead of being stopped itself
+            # (fifth-round seeded change C15-D: the async stopChild skipped the stop() of a child that was not `running`)
+            steps.append(("do", 0, 9, [("stopChild", steps[0][3][0][3] or "w")]))
+        else:
+            steps.append(("stop", rng.choice([0, 0, 0, 1])))
         steps.append(("adv", 1500))
         steps.append(("adv", 2500))
         cases.append((steps, ("async", "sync")[i % 2], None))
@@ -148,8 +153,8 @@ def finished_monitor(steps, res):
     tr = res.get("trace") or []
     if len(tr) != len(steps) or any(s and s[0][1] in ("TIMEOUT", "harness-exc") for s in res.get("snaps", []) if s):
         return out
-    k = next(i for i, st in enumerate(steps) if st[0] == "stop")
-    who = steps[k][1]
+    k = next(i for i, st in enumerate(steps) if st[0] == "stop" or (st[0] == "do" and st[2] == 9))
+    who = steps[k][1] if steps[k][0] == "stop" else 1
     before = tr[k - 1] if k else tr[k]
     n = len(tr[k]["status"])
     par = tr[k]["parent"]
@@ -187,12 +192,140 @@ def finished_component(cases):
         tr = res.get("trace") or []
         if len(tr) == len(steps):
             stats["judged"] += 1
-            k = next(i for i, st in enumerate(steps) if st[0] == "stop")
+            k = next(i for i, st in enumerate(steps) if st[0] == "stop" or (st[0] == "do" and st[2] == 9))
             if "done" in tr[k - 1]["status"]:
                 stats["finished"] += 1
         for what, sig in finished_monitor(steps, res):
             fails.append(dict(case=dict(steps=[list(map(lambda x: list(x) if isinstance(x, (list, tuple)) else x, st)) for st in steps],
                                         engine=engine, finished_child=True), what=what, signature=sig))
+    return fails, stats
+
+
+# ---------------------------------------------------------------------------------------------------------------------
+# FAILED START (implementation monitor, both engines): the initial entry creates child actors (and grandchildren) and THEN
+# hits a fatal configuration error - an action or a service without implementation - so start() raises a library error.  The
+# caller reacts the usual way and calls stop().  The property: stop() may be called in any status and, when it returns, every
+# descendant actor the interpreter created is stopped and none is registered any more.  (Fifth-round seeded change C14-D made the
+# sync start() mark the interpreter "stopped" on failure, after which stop() returned at once and the children lived on.)
+def failed_start_cases(rng, n):
+    cases = []
+    for i in range(n):
+        cases.append(dict(engine=("sync", "async")[i % 2], where=rng.choice(["same-entry", "inner-entry", "missing-service", "none"]),
+                          blocking=rng.random() < 0.5, grandchild=rng.random() < 0.5, system_id=rng.random() < 0.5,
+                          second=rng.random() < 0.4, call_stop_twice=rng.random() < 0.3))
+    return cases
+
+
+def run_failed_start(case):
+    import asyncio
+    import time
+    from xstate_statemachine import create_machine, Interpreter, SyncInterpreter, MachineLogic
+    from xstate_statemachine.exceptions import XStateMachineError
+    made = []
+
+    def track(name):
+        def act(interp, ctx, ev, ad):
+            if interp not in made:
+                made.append(interp)
+        return act
+    sync = case["engine"] == "sync"
+    spawn = ("spawn_blocking_" if (case["blocking"] and sync) else "spawn_")
+    leaf_cfg = {"id": "leaf", "initial": "on", "states": {"on": {"entry": ["seen"], "after": {"60000": "on2"}}, "on2": {}}}
+    leaf = create_machine(leaf_cfg, logic=MachineLogic(actions={"seen": track("leaf")}))
+    kid_entry = ["seen"] + ([{"type": spawn + "leaf", "params": ({"systemId": "the-leaf"} if case["system_id"] else {})}] if case["grandchild"] else [])
+    kid_cfg = {"id": "kid", "initial": "on", "states": {"on": {"entry": kid_entry, "after": {"60000": "on2"}}, "on2": {}}}
+    kid = create_machine(kid_cfg, logic=MachineLogic(actions={"seen": track("kid")}, services={"leaf": leaf}))
+    spawn_kid = {"type": spawn + "kid", "params": ({"systemId": "the-kid"} if case["system_id"] else {})}
+    entry = [spawn_kid] + ([{"type": spawn + "kid", "params": {"id": "second"}}] if case["second"] else [])
+    a = {"entry": list(entry), "initial": "x", "states": {"x": {}}}
+    if case["where"] == "same-entry":
+        a["entry"].append("thisActionHasNoImplementation")
+    elif case["where"] == "inner-entry":
+        a["states"]["x"]["entry"] = ["thisActionHasNoImplementation"]
+    elif case["where"] == "missing-service":
+        a["states"]["x"]["invoke"] = {"src": "thisServiceHasNoImplementation"}
+    cfg = {"id": "m", "initial": "a", "states": {"a": a}}
+    parent = create_machine(cfg, logic=MachineLogic(services={"kid": kid}))
+    res = dict(case=case)
+
+    def census(it):
+        return dict(status=it.status, made=[(x.machine.id, x.status) for x in made], actors=len(it._actors),
+                    registry=sorted(it._system_registry().keys()))
+    try:
+        if sync:
+            it = SyncInterpreter(parent)
+            try:
+                it.start()
+                res["start"] = "ok"
+            except XStateMachineError as exc:
+                res["start"] = type(exc).__name__
+            t0 = time.time()
+            want = 1 + (1 if case["second"] else 0)
+            # non-blocking spawns start their child on a runner thread: wait until every spawned child runs (or give up: inconclusive)
+            while time.time() - t0 < 3 and sum(1 for x in made if x.machine.id == "kid" and x.status == "running") < want:
+                time.sleep(0.005)
+            if case["grandchild"]:
+                while time.time() - t0 < 3 and sum(1 for x in made if x.machine.id == "leaf" and x.status == "running") < want:
+                    time.sleep(0.005)
+            res["before"] = census(it)
+            it.stop()
+            if case["call_stop_twice"]:
+                it.stop()
+            time.sleep(0.05)
+            res["after"] = census(it)
+        else:
+            async def main():
+                it = Interpreter(parent)
+                try:
+                    await it.start()
+                    res["start"] = "ok"
+                except XStateMachineError as exc:
+                    res["start"] = type(exc).__name__
+                for _ in range(20):
+                    await asyncio.sleep(0)
+                res["before"] = census(it)
+                await it.stop()
+                if case["call_stop_twice"]:
+                    await it.stop()
+                for _ in range(20):
+                    await asyncio.sleep(0)
+                res["after"] = census(it)
+            asyncio.run(asyncio.wait_for(main(), 20))
+    except Exception as exc:
+        res["harness_exc"] = repr(exc)
+    return res
+
+
+def failed_start_monitor(res):
+    if "harness_exc" in res or "after" not in res:
+        return []
+    case, after = res["case"], res["after"]
+    if case["where"] != "none" and res.get("start") == "ok":
+        return []                                           # the fault did not fire: nothing to judge
+    alive = [(mid, st) for mid, st in after["made"] if st not in ("stopped", "uninitialized")]
+    how = ("after start() had failed with %s" % res["start"]) if res.get("start") != "ok" else "after a successful start()"
+    if alive:
+        return [("stop() returned (%s, interpreter status before stop(): %r, after: %r) and descendant actor(s) are still alive: %s - "
+                 "stop() may be called in any status and must stop every actor the interpreter created"
+                 % (how, res["before"]["status"], after["status"], alive), None)]
+    if after["actors"] or after["registry"]:
+        return [("stop() returned (%s) and %d child actor(s) / systemIds %s are still registered" % (how, after["actors"], after["registry"]), None)]
+    return []
+
+
+def failed_start_component(cases):
+    from concurrent.futures import ProcessPoolExecutor
+    with ProcessPoolExecutor(max_workers=12) as ex:
+        results = list(ex.map(run_failed_start, cases, chunksize=2))
+    fails, stats = [], dict(cases=len(cases), judged=0, start_failed=0, children_alive_before_stop=0)
+    for case, res in zip(cases, results):
+        if "harness_exc" in res or "after" not in res:
+            continue
+        stats["judged"] += 1
+        stats["start_failed"] += res.get("start") != "ok"
+        stats["children_alive_before_stop"] += any(st == "running" for _, st in res["before"]["made"])
+        for what, sig in failed_start_monitor(res):
+            fails.append(dict(case=dict(failed_start=True, **case), what=what, signature=sig))
     return fails, stats
 
 
@@ -261,6 +394,9 @@ def run(rep, ctx):
     ffails, fstats = finished_component(finished_child_family(rng, 240 if big else 60))
     failures += ffails
     rep.coverage["components"]["monitor: stop() below a finished child (implementation only)"] = fstats
+    sfails, sstats = failed_start_component(failed_start_cases(rng, 160 if big else 48))
+    failures += sfails
+    rep.coverage["components"]["monitor: stop() after a start() that failed behind spawned actors (implementation only, both engines)"] = sstats
     core.decide(rep, ctx["proof"], disagreements, failures, None)
     rep.assumptions += ["liveness of OS threads / asyncio tasks after stop() is observed through the interpreter's own registries (task manager, "
                         "timer table) and by letting virtual time pass; it is monitored, not proved"]
@@ -269,6 +405,13 @@ def run(rep, ctx):
 def replay(payload):
     import base64, pickle
     case = payload.get("case") or (payload.get("first_disagreement") or {}).get("case")
+    if case and case.get("failed_start"):
+        res = run_failed_start({k: v for k, v in case.items() if k != "failed_start"})
+        print(res)
+        bad = failed_start_monitor(res)
+        for b in bad:
+            print("MONITOR:", b)
+        return 1 if bad else 0
     if case and case.get("finished_child"):
         from harness import actors
         def tup(x):
